@@ -263,3 +263,29 @@ Proof.
   unfold FL, expected_final. cbn [existsb]. unfold headz.
   destruct (c_stor c) as [|[|[|[|n]]]]; cbn; destruct (is_conv c); reflexivity.
 Qed.
+
+(* ---------- the statements of Properties_C18.v, bundled (each Print Assumptions there walks the whole development) ---------- *)
+Theorem progress_all c :
+  valid c = true ->
+  (forall s, reachable c s -> terminal s -> th0 s = [] /\ th1 s = [] /\ th2 s = []) /\
+  (forall sched fuel, 90 <= fuel -> terminal (fst (run_sched c fuel (init c) sched []))) /\
+  (forall fuel s sched tr, reachable c s -> reachable c (fst (run_sched c fuel s sched tr))).
+Proof.
+  intros V. split; [|split].
+  - intros s R T. apply (terminal_done c); assumption.
+  - intros sched fuel F. apply every_schedule_terminates; assumption.
+  - intros fuel s sched tr R. apply run_sched_reachable. exact R.
+Qed.
+
+Theorem fires_once_all c s : valid c = true -> reachable c s ->
+  ncb s <= 1 /\ (terminal s -> ncb s = b2n (has_cb (c_ad c))).
+Proof. intros V R. split; [apply (fires_at_most_once c); assumption|intros T; apply fires_exactly_once; assumption]. Qed.
+
+Theorem conv_all c s : valid c = true -> reachable c s ->
+  (nores s <= 1 /\ nconv s <= b2n (isv (payload s)) /\ ndeliv s <= nores s /\
+   (oslot s = SReady -> opayload s = conv_result c (payload s))) /\
+  (is_conv c = true -> terminal s ->
+   oslot s = SReady /\ opayload s = conv_result c (wout c s) /\ nores s = 1 /\ ndeliv s = 1 /\
+   nconv s = b2n (isv (wout c s)) /\
+   exists t1 t2, log s = conv_log c (wout c s) t1 ++ [(t2, EODeliv (conv_result c (wout c s)))]).
+Proof. intros V R. split; [apply (conv_safe c); assumption|intros C T; apply conv_final; assumption]. Qed.
